@@ -804,7 +804,7 @@ func c20MaxPayload() int {
 
 func c20CheckRT(t *testing.T, c *hx.Collector) {
 	maxN := c20MaxPayload()
-	c.Check(t, "roundtrip", hx.N(500, 15000), func(cs *hx.Case) {
+	c.Check(t, "roundtrip", hx.N(1500, 30000), func(cs *hx.Case) {
 		s := c20GenMsgSpec(cs.RT(), maxN)
 		cs.Op(s)
 		o := c20RunRT(s)
@@ -1007,6 +1007,17 @@ const (
 type c20KeyState struct {
 	state int
 	at    time.Time // start of the accepted dispatch
+}
+
+// c20Elapsed: time since t0 by the monotonic AND by the wall clock, whichever is larger (the
+// de-duplication cache expires entries by wall clock; a clock step must not turn into a verdict).
+func c20Elapsed(t0, t1 time.Time) time.Duration {
+	mono := t1.Sub(t0)
+	wall := time.Duration(t1.UnixNano() - t0.UnixNano())
+	if wall > mono {
+		return wall
+	}
+	return mono
 }
 
 func c20ErrIn(err error, allowed ...error) bool {
@@ -1239,7 +1250,7 @@ func c20RunDisp(p *c20DispProg) *c20DispOut {
 			if !c20ErrIn(err, nil, p2p.ErrNotRegister) {
 				return fail("Dispatch returned %v", err)
 			}
-			mustDrop := st != nil && st.state == c20Handled && time.Since(st.at) < time.Second
+			mustDrop := st != nil && st.state == c20Handled && c20Elapsed(st.at, time.Now()) < time.Second
 			mustAccept := (st == nil || st.state == c20Fresh) && !sibling[k.sansFrom()]
 			switch {
 			case mustDrop:
@@ -1323,12 +1334,25 @@ func c20RunDisp(p *c20DispProg) *c20DispOut {
 	return o
 }
 
-var (
-	c20SubTypes = []int32{int32(pb.XuperMessage_POSTTX), int32(pb.XuperMessage_POSTTX), int32(pb.XuperMessage_POSTTX),
-		int32(pb.XuperMessage_SENDBLOCK), int32(pb.XuperMessage_GET_BLOCK)}
-	// PING never has a subscriber in the generated programs
-	c20MsgTypes = append(append([]int32{}, c20SubTypes...), int32(pb.XuperMessage_PING))
-)
+// c20GenTypes draws the message types of one program: three types that get subscribers (the first
+// one three times as likely) and a fourth that never has one. MSG_TYPE_NONE cannot be subscribed.
+func c20GenTypes(rt *rapid.T) (subTypes, msgTypes []int32) {
+	all := []int32{}
+	for _, v := range c20AllTypes() {
+		if v != int32(pb.XuperMessage_MSG_TYPE_NONE) {
+			all = append(all, v)
+		}
+	}
+	var b []int32
+	if rapid.IntRange(0, 3).Draw(rt, "usual-types") > 0 {
+		b = []int32{int32(pb.XuperMessage_POSTTX), int32(pb.XuperMessage_SENDBLOCK), int32(pb.XuperMessage_GET_BLOCK), int32(pb.XuperMessage_PING)}
+	} else {
+		b = rapid.Permutation(all).Draw(rt, "types")[:4]
+	}
+	subTypes = []int32{b[0], b[0], b[0], b[1], b[2]}
+	msgTypes = append(append([]int32{}, subTypes...), b[3])
+	return
+}
 
 func c20GenSub(rt *rapid.T, types []int32) c20SubSpec {
 	sp := c20SubSpec{
@@ -1357,6 +1381,7 @@ func c20GenKey(rt *rapid.T, types []int32) *c20MsgKey {
 
 func c20GenDispProg(rt *rapid.T, maxOps int) *c20DispProg {
 	p := &c20DispProg{}
+	c20SubTypes, c20MsgTypes := c20GenTypes(rt)
 	ns := rapid.IntRange(1, 6).Draw(rt, "nsubs")
 	for i := 0; i < ns; i++ {
 		p.Subs = append(p.Subs, c20GenSub(rt, c20SubTypes))
@@ -1480,7 +1505,7 @@ func c20CheckDisp(t *testing.T, c *hx.Collector) {
 			return
 		}
 	}
-	c.Check(t, "dispatch-model", hx.N(4000, 60000), func(cs *hx.Case) {
+	c.Check(t, "dispatch-model", hx.N(8000, 120000), func(cs *hx.Case) {
 		p := c20GenDispProg(cs.RT(), 40)
 		cs.Op(p)
 		o := c20RunDisp(p)
@@ -1815,7 +1840,7 @@ func c20RunConcOnce(p *c20ConcProg, rep int, o *c20ConcOut) {
 			if d2 == d1 || d2.op.Msg.full() != d1.op.Msg.full() || d2.s < d1.e {
 				continue
 			}
-			if d2.w1.Sub(d1.w0) < time.Second && del[d2.msg] != nil {
+			if c20Elapsed(d1.w0, d2.w1) < time.Second && del[d2.msg] != nil {
 				fail("%s was dispatched again %v after a handled dispatch of it had returned and was delivered again", c20JSON(d2.op), d2.w1.Sub(d1.w0))
 				return
 			}
@@ -1887,7 +1912,8 @@ func c20RunConcOnce(p *c20ConcProg, rep int, o *c20ConcOut) {
 
 func c20GenConcProg(rt *rapid.T) *c20ConcProg {
 	p := &c20ConcProg{Reps: 3}
-	types := []int32{int32(pb.XuperMessage_POSTTX), int32(pb.XuperMessage_POSTTX), int32(pb.XuperMessage_SENDBLOCK)}
+	st, _ := c20GenTypes(rt)
+	types := []int32{st[0], st[0], st[3]}
 	ns := rapid.IntRange(1, 5).Draw(rt, "nsubs")
 	for i := 0; i < ns; i++ {
 		p.Subs = append(p.Subs, c20GenSub(rt, types))
@@ -1946,7 +1972,7 @@ func TestRaceC20(t *testing.T) {
 		"the Go race detector and runtime map checks are the oracle for memory safety; interleavings are those the Go scheduler produces")
 	defer c.Flush(t)
 	c20Ctx()
-	c.Check(t, "concurrent", hx.N(400, 8000), func(cs *hx.Case) {
+	c.Check(t, "concurrent", hx.N(600, 16000), func(cs *hx.Case) {
 		p := c20GenConcProg(cs.RT())
 		cs.Op(p)
 		o := c20RunConc(p)
